@@ -56,6 +56,12 @@ class StubReader:
             eng.add(z3.And(n >= 0, n <= maxmsgs))
             self.plan.append((SInt(n), [Msg([r, c, i], eng) for i in range(maxmsgs)]))
         self.returned = [[] for _ in range(calls)]
+        # real readers expose is_in_hunt_mode; to the protocol it is one more free observation per call
+        self.hunt = [SBool(z3.Bool(f"hunt_{r}_{c}")) for c in range(calls)]
+
+    @property
+    def is_in_hunt_mode(self):
+        return self.hunt[self.clock[0]]
 
     def read(self, data):
         c = self.clock[0]                 # plan[c] = what this reader makes of the c-th chunk; a candidate that is not fed a chunk loses it
@@ -94,7 +100,7 @@ def lemma_path(proto, readers, calls, maxmsgs):
         # candidate that is skipped can never become the selected reader, and the clean-stream corollary fails for that candidate order)
         full = [r.full_plan() for r in rs]
         plan = [[[[m._valid, m._kind] for m in full[i][c]] for c in range(calls)] for i in range(len(rs))]
-        w = {"sub": "stub", "proto": proto, "plan": plan}
+        w = {"sub": "stub", "proto": proto, "plan": plan, "hunt": [list(r.hunt) for r in rs]}
         ctx.witness, ctx.obs = w, got
         ctx.nontrivial()
         # reference over the same Booleans (forks are consistent with the path)
